@@ -82,6 +82,13 @@ def final(env):
                 return '%s callbacks fired %r' % (kind, cbs)
         else:
             exps = rec['expect_items']
+            iter_k = None
+            if rec.get('iter_raises'):
+                # the input iterable itself fails at position k: the items
+                # before it, then that error, then the end
+                iter_k = min(t['iter_raise_at'], len(exps))
+                exps = exps[:iter_k] + [(False, (RuntimeError, (
+                    'iterable failed at %d' % t['iter_raise_at'],)))]
             got = list(rec['nexts'])
             if 'gen' in rec:
                 # chunked: a generator over chunks (Python ends it at the
@@ -147,7 +154,8 @@ def final(env):
                             if not isinstance(a, ExceptionInfo):
                                 return ('imap error at %d does not carry the '
                                         'exception record: %r' % (i, g[1]))
-                            m = _exc_ok(a, e[1], fname)
+                            m = _exc_ok(a, e[1],
+                                        'gen' if i == iter_k else fname)
                             if m:
                                 return 'imap item %d: %s' % (i, m)
                         elif g[1] is not e[1][0]:
@@ -239,6 +247,17 @@ def configs(tier):
         out.append(dict(name='%s-then-%s' % (kind, kind), procs=2, jobs=[
             dict(kind=kind, fn='typed', items=[0, 1]),
             dict(kind=kind, fn='typed', items=[5])]))
+    # an input iterable that fails: before its first item (while an earlier
+    # map is still running) and after one item
+    for kind in ('imap', 'imap_unordered'):
+        out.append(dict(name='map-then-%s-iterable-fails@0' % kind, procs=2,
+                        jobs=[dict(kind='map', fn='typed', items=[0, 1],
+                                   chunksize=1),
+                              dict(kind=kind, fn='typed', items=[3, 4],
+                                   iter_raise_at=0)]))
+        out.append(dict(name='%s-iterable-fails@1' % kind, procs=2,
+                        jobs=[dict(kind=kind, fn='typed', items=[3, 4],
+                                   iter_raise_at=1)]))
     out.append(dict(name='apply/ok+boom+none', procs=2, jobs=[
         dict(kind='apply', fn='typed', arg=5, tq=True),
         dict(kind='apply', fn='boom', arg=7, tq=True),
